@@ -53,19 +53,19 @@ pub const BAD: &[(&str, &str, Option<(&str, &str)>, u64)] = &[
     /* 102 */ ("(u ?a)", "?a", Some(("1", "zz")), 6),
 ];
 
-struct RuleSpec { name: u64, lhs: String, rhs: String, cond: Option<(String, String)> }
+pub struct RuleSpec { pub name: u64, pub lhs: String, pub rhs: String, pub cond: Option<(String, String)> }
 
-fn rule_sx(name: u64, r: &(&str, &str, Option<(&str, &str)>, u64)) -> Sx {
+pub fn rule_sx(name: u64, r: &(&str, &str, Option<(&str, &str)>, u64)) -> Sx {
     let cond = match r.2 { None => sym("none"), Some((s, v)) => lst(vec![sym("free"), text_sx(s), text_sx(v)]) };
     lst(vec![sym("rule"), num(name), text_sx(r.0), text_sx(r.1), cond])
 }
-fn dec_rule(e: &Sx) -> RuleSpec {
+pub fn dec_rule(e: &Sx) -> RuleSpec {
     let l = e.as_lst();
     let cond = match &l[4] { Sx::Lst(c) => Some((dec_text(&c[1]), dec_text(&c[2]))), _ => None };
     RuleSpec { name: l[1].as_num(), lhs: dec_text(&l[2]), rhs: dec_text(&l[3]), cond }
 }
 
-fn err_of_panic(extra: &mut Vec<Sx>, what: &str) -> Sx {
+pub fn err_of_panic(extra: &mut Vec<Sx>, what: &str) -> Sx {
     let (loc, msg) = take_panic().unwrap_or_default();
     let kind = if msg.starts_with("harness:") { "harness-error" } else { panic_kind(&msg) };
     extra.push(lst(vec![sym(what), sym(kind), sym(&loc.replace(' ', "_").replace("/repo/", ""))]));
@@ -171,7 +171,7 @@ pub fn run_case(case: &Sx) -> (Sx, Sx, Sx) {
     r.unwrap_or_else(|_| (sym("harness-thread-panic"), sym("harness-thread-panic"), lst(vec![sym("sched")])))
 }
 
-fn flags() -> Sx {
+pub fn flags() -> Sx {
     lst(vec![sym("cfg"), num(if cfg!(feature = "checks") { 1 } else { 0 }), num(if cfg!(feature = "explanations") { 1 } else { 0 })])
 }
 
